@@ -285,11 +285,19 @@ func checkC19(p *Prog, r *Report) {
 		// reset
 		reset := false
 		for _, e := range x.Events {
-			if e.Kind == "assign" && e.Root == "GlobalVarsMain.TDSUM" && e.Val.IsZero() && e.Seq < acc.Seq && len(e.Loops) == 1 {
-				reset = true
+			if e.Kind == "assign" && e.Root == "GlobalVarsMain.TDSUM" && e.Val.IsZero() && e.Seq < acc.Seq && len(e.Loops) == 1 && len(e.Idx) == 1 {
+				// every accumulator cell that the sub-steps add to (layers 0..N−2) is cleared: the reset sweep starts
+				// at 0, reaches at least N−2, addresses its own loop variable and is unconditional
+				L := e.Loops[0]
+				lo, hi, unit, why := loopBounds(x, L)
+				Nn := cellP("GlobalVarsMain.N")
+				h := stripVersions(hi)
+				if why == "" && unit && lo.IsZero() && (h.Equal(Nn.Sub(PInt(1))) || h.Equal(Nn.Sub(PInt(2))) || h.Equal(Nn)) && e.Idx[0].Equal(PAtom(L.Var)) && len(inLoopGuards(e, L)) == 0 {
+					reset = true
+				}
 			}
 		}
-		r.Ob("mean", p.Pos(mean.Pos), okAcc && okMean && reset, fmt.Sprintf("accumulator takes the new interior value of its layer once per sub-step: %v; daily value = accumulator/%d at the same layer offset: %v; accumulator reset before the sub-steps: %v", okAcc, nTrips, okMean, reset))
+		r.Ob("mean", p.Pos(mean.Pos), okAcc && okMean && reset, fmt.Sprintf("accumulator takes the new interior value of its layer once per sub-step: %v; daily value = accumulator/%d at the same layer offset: %v; accumulator cleared for every layer 0..N−2 before the sub-steps (a cell that is not cleared keeps growing from day to day): %v", okAcc, nTrips, okMean, reset))
 	}
 	if carry == nil {
 		r.Ob("carry", "-", false, "the daily mean is not carried into the next day's start profile")
